@@ -426,6 +426,9 @@ class NumpyConverter(object):
         if tf_xl not in self.trace_headers:
             self.trace_headers[tf_xl] = np.broadcast_to(self.xlines, shape)
 
+        # Readers locate the stored arrays by ascending trace-field code: keep that order with the defaults added
+        self.trace_headers = collections.OrderedDict(sorted(self.trace_headers.items()))
+
         # Do some sanity checks
         assert data_array.dtype == np.float32
         assert data_array.shape == (len(self.ilines), len(self.xlines), len(self.samples))
